@@ -10,7 +10,8 @@ SE == INSTANCE SequencesExt
 As(n) == SeqOf(n, 97)
 IntMags == {<<>>, <<1>>, <<23>>, <<24>>, <<255>>, <<1,0>>, <<255,255>>, <<1,0,0>>, <<255,255,255,255>>, <<1,0,0,0,0>>,
             <<127,255,255,255,255,255,255,255>>}
-IntLabels == {I(neg, m) : neg \in BOOLEAN, m \in IntMags}
+N63p1 == I(TRUE, <<127,255,255,255,255,255,255,254>>)     \* -2^63 + 1
+IntLabels == {I(neg, m) : neg \in BOOLEAN, m \in IntMags} \cup {N63p1, I(FALSE, <<127,255,255,255,255,255,255,254>>)}
 TextLabels == {Tx(<<>>), Tx(<<97>>), Tx(<<98>>), Tx(<<122>>), Tx(<<97,97>>), Tx(<<97,98>>), Tx(<<98,97>>), Tx(<<195,169>>), Tx(<<97, 195, 169>>),
                Tx(As(23)), Tx(As(22) \o <<98>>), Tx(<<98>> \o As(22)), Tx(As(24)), Tx(As(255)), Tx(As(254) \o <<98>>), Tx(As(256)), Tx(As(22) \o <<195,169>>)}
 Labels == IntLabels \cup TextLabels
@@ -19,12 +20,12 @@ AlgNames == {"RS1", "WalnutDSA", "RS256", "ES256K", "ECDH_ES_HKDF_256", "SHAKE12
              "HMAC_512_512", "AES_CCM_16_64_128", "ChaCha20Poly1305", "AES_MAC_128_128", "IV_GENERATION"}
 RegTexts == {TextL(<<>>), TextL(<<97>>), TextL(<<98>>), TextL(<<97,97>>), TextL(As(23)), TextL(As(24)), TextL(<<195,169>>)}
 AlgLabels == {Assigned("Algorithm", n) : n \in AlgNames}
-             \cup {Priv(Neg2I(65537)), Priv(Neg2I(65538)), Priv(I(TRUE, <<1,0,0,0,0>>)), Priv(N63)} \cup RegTexts
+             \cup {Priv(Neg2I(65537)), Priv(Neg2I(65538)), Priv(I(TRUE, <<1,0,0,0,0>>)), Priv(N63), Priv(N63p1)} \cup RegTexts
 CfNames == {"TextPlainUtf8", "CoseEncrypt0", "OctetStream", "Cbor", "CoseSign", "CoapGroupJson", "PkixCert", "VndOcfCbor", "VndOmaLwm2mCbor"}
 CfLabels == {Assigned("CoapContentFormat", n) : n \in CfNames} \cup RegTexts
 OpLabels == {Assigned("KeyOperation", Registry["KeyOperation"][i][1]) : i \in 1..Len(Registry["KeyOperation"])} \cup RegTexts
 ClaimLabels == {Assigned("CwtClaimName", Registry["CwtClaimName"][i][1]) : i \in 1..Len(Registry["CwtClaimName"])}
-               \cup {Priv(Neg2I(65537)), Priv(N63)} \cup RegTexts
+               \cup {Priv(Neg2I(65537)), Priv(N63), Priv(N63p1)} \cup RegTexts
 
 Kinds == {"Label", "Algorithm", "CoapContentFormat", "KeyOperation", "CwtClaimName"}
 SetOf(k) == CASE k = "Label" -> Labels [] k = "Algorithm" -> AlgLabels [] k = "CoapContentFormat" -> CfLabels
